@@ -53,6 +53,9 @@ func TestVerifC13Util(t *testing.T) {
 
 	// ---- FindClosestMatchingRoot: every ordered selection of <=3 roots x every path ---------
 	rootsU := []string{"/w", "/w/foo", "/w/foo/", "/w/foobar", "/w/foo/bar", "/", "", "/w/f", "/v", "/w/foo/x.rego"}
+	if !thorough {
+		rootsU = rootsU[:8]
+	}
 	paths := []string{"/w/foo/x.rego", "/w/foobar/x.rego", "/w/foo", "/w/x.rego", "/v/x.rego", "/w/foo/bar/baz/x.rego",
 		"/w/foo/barbaz/x.rego", "/w/foo/", "/x.rego", "/wx/y.rego", "/w/foo/bar", "/w/f/o.rego"}
 	var sel func(k int, cur []string)
@@ -79,7 +82,7 @@ func TestVerifC13Util(t *testing.T) {
 		sel(3, nil)
 	} else {
 		sel(2, nil)
-		for i := 0; i < 300; i++ {
+		for i := 0; i < 150; i++ {
 			var rs []string
 			for j := 0; j < 3+rng.below(2); j++ {
 				rs = append(rs, rootsU[rng.below(len(rootsU))])
